@@ -1,13 +1,13 @@
 ---- MODULE QuietCases ----
 (***************************************************************************)
 (* Generator of C17 cases (spec -> code): input spelling class x outcome   *)
-(* class x mode x very_readable x visibility (0 plain, 1 show, 2 save,     *)
+(* class x mode x very_readable x large_text x visibility (0 plain, 1 show, 2 save,     *)
 (* 3 both).  One state per case; the harness binds each to concrete pairs. *)
 (***************************************************************************)
 EXTENDS Integers
 CONSTANTS Spells, Outcomes
 VARIABLE c
-Init == c \in [spell : Spells, outcome : Outcomes, mode : 0..2, vr : BOOLEAN, vis : 0..3]
+Init == c \in [spell : Spells, outcome : Outcomes, mode : 0..2, vr : BOOLEAN, large : BOOLEAN, vis : 0..3]
 Next == UNCHANGED c
 Spec == Init /\ [][Next]_c
 ====
